@@ -55,6 +55,10 @@ func c19Op(sh *c19Shared, op int, label string) string {
 		a.AddRule(sh.pRule)
 		a.AddCheck(sh.pCheck)
 		a.AddPolicy(sh.pPolicy)
+		// a regular expression nobody has evaluated before (unique per case, goroutine and call)
+		a.AddCheck(ast.Check{Queries: []ast.Rule{
+			{Head: ast.P("query"), Body: []ast.Pred{ast.P("resource", ast.Var("r"))}, Exprs: []ast.Expr{{ast.OV(ast.Var("r")), ast.OV(ast.Str("^never-" + label + "$")), ast.OB(ast.BRegex), ast.OU(ast.UNegate)}}},
+		}}.Lib())
 		return string(lib.Classify(a.Authorize()))
 	case 2: // Query
 		a, err := t.B.AuthorizerFor(biscuit.WithSingularRootPublicKey(t.Pub), lib.BigLimits())
@@ -192,18 +196,29 @@ func c19Run(c *core.C) {
 			plans[g] = append(plans[g], r.Intn(len(c19OpNames)))
 		}
 	}
-	// sequential model: the result of every planned call made alone, BEFORE any concurrency
+	// sequential model: the result of every planned call made alone. In even cases it is computed
+	// BEFORE any concurrency, in odd cases AFTER it (a warm-up would hide races on state that is
+	// only written the first time something is seen, e.g. a cache); the model is constant-state,
+	// so the order does not matter for a correct library.
+	label := func(g, k int) string { return fmt.Sprintf("%d-%d-%d", c.Idx, g, k) }
 	want := make([][]string, nG)
-	for g := range plans {
-		for k, op := range plans[g] {
-			var res string
-			pi := lib.Try(func() { res = c19Op(sh, op, fmt.Sprintf("%d-%d", g, k)) })
-			if pi != nil {
-				c.Violate("sequential-panic/"+pi.Site, pi.Msg, map[string]any{"op": c19OpNames[op]})
-				return
+	sequential := func() bool {
+		for g := range plans {
+			for k, op := range plans[g] {
+				var res string
+				pi := lib.Try(func() { res = c19Op(sh, op, label(g, k)) })
+				if pi != nil {
+					c.Violate("sequential-panic/"+pi.Site, pi.Msg, map[string]any{"op": c19OpNames[op]})
+					return false
+				}
+				want[g] = append(want[g], res)
 			}
-			want[g] = append(want[g], res)
 		}
+		return true
+	}
+	baselineFirst := c.Idx%2 == 0
+	if baselineFirst && !sequential() {
+		return
 	}
 	got := make([][]string, nG)
 	events := make([][]c19Event, nG)
@@ -219,7 +234,7 @@ func c19Run(c *core.C) {
 			panics[g] = lib.Try(func() {
 				for k, op := range plans[g] {
 					st := time.Since(t0).Nanoseconds()
-					res := c19Op(sh, op, fmt.Sprintf("%d-%d", g, k))
+					res := c19Op(sh, op, label(g, k))
 					en := time.Since(t0).Nanoseconds()
 					got[g] = append(got[g], res)
 					events[g] = append(events[g], c19Event{op, st, en})
@@ -230,6 +245,10 @@ func c19Run(c *core.C) {
 	close(start)
 	wg.Wait()
 	c.Eval(nG * opsPer)
+	if !baselineFirst && !sequential() {
+		return
+	}
+	c.Count(map[bool]string{true: "baseline_before_concurrency", false: "baseline_after_concurrency"}[baselineFirst], 1)
 	desc := map[string]any{"token_variant": variant, "blocks": len(tok.Blocks), "goroutines": nG, "gomaxprocs": procs}
 	for g := 0; g < nG; g++ {
 		if panics[g] != nil {
